@@ -1306,4 +1306,92 @@ Section Sound.
           * destruct H as (v & -> & Hv). eapply finv_set; eauto. intros j Hj. rewrite Es in Hj. discriminate.
     Qed.
   End Fields.
+
+  (* ---- setFields, by induction on the fuel ---------------------------------------------------------- *)
+  Hypothesis Hann : ann_ok sch ann = true.
+  Definition enums_ok : Prop :=
+    forall mid md ma i f fa, get_msg sch mid = Some md -> nth_error ann mid = Some ma ->
+      nth_error (m_fields md) i = Some f -> nth_error (a_fields ma) i = Some fa ->
+      f_ty f = TScalar KEnum -> enum_decl_ok (a_enum fa).
+  Hypothesis Henum : enums_ok.
+
+  Lemma facts_of mid md ma : get_msg sch mid = Some md -> nth_error ann mid = Some ma ->
+    forall i f fa, nth_error (m_fields md) i = Some f -> nth_error (a_fields ma) i = Some fa ->
+      field_facts f fa /\ (forall j, f_shape f = Member j -> (j < m_oneofs md)%nat).
+  Proof.
+    intros Hg Ha i f fa Hf Hfa. pose proof (RoundTrip.wf_get_msg sch mid md Hwf Hg) as Hmd.
+    destruct (RoundTrip.msg_wf_field sch md i f Hmd Hf) as [Hfw _].
+    pose proof (RoundTrip.field_wf_shape _ _ f Hfw) as Hsh. split; [split; [|split]|].
+    - intros k Hk ->. eapply Henum; eauto.
+    - intros kk Hkk. rewrite Hkk in Hsh. intros ->. discriminate.
+    - intros tm Htm. pose proof (RoundTrip.field_wf_ty _ _ f tm Hfw Htm) as Hlt.
+      destruct (get_msg sch tm) as [md'|] eqn:E; [eauto|]. apply nth_error_None in E. lia.
+    - intros j Hj. rewrite Hj in Hsh. exact Hsh.
+  Qed.
+
+  Lemma wkt_is_any mid ma : nth_error ann mid = Some ma -> is_any ann mid = match a_wkt ma with WAny => true | _ => false end.
+  Proof. intros H. unfold is_any, wkt_of. rewrite H. reflexivity. Qed.
+
+  Lemma set_fields_sound : forall fuel d, child_sound (set_fields vr o sch ann fuel) d.
+  Proof.
+    induction fuel as [|fu IH]; intros d ic mid cur tp res tp'; cbn [set_fields]; [discriminate|].
+    destruct (depth_limit <? d)%nat eqn:Ed.
+    { intros E. injection E as <- <-. left. apply Nat.ltb_lt in Ed. exact Ed. }
+    apply Nat.ltb_ge in Ed. unfold depth_limit in Ed.
+    destruct (get_msg sch mid) as [md|] eqn:Hg; [|discriminate]. destruct (nth_error ann mid) as [ma|] eqn:Ha; [|discriminate].
+    pose proof (wkt_is_any mid ma Ha) as Hia. destruct (ann_ok_nth _ _ _ _ _ Hann Hg Ha) as [Hlay Hlen].
+    assert (Hr : (12 - d = S (11 - d))%nat) by lia.
+    assert (Hcur : forall q, cur_ok o sch ann (12 - d) q mid cur -> exists slots, cur = VMsg slots []).
+    { intros q. rewrite Hr. cbn [cur_ok]. rewrite Hg, Ha. destruct cur; try contradiction. intros [-> _]. eauto. }
+    destruct (a_wkt ma) eqn:Ew.
+    - (* ordinary message *)
+      destruct (fields_loop vr o sch ann (set_fields vr o sch ann fu) d md (m_fields md) (a_fields ma) 0 (slots_of cur) tp) as [[slots' t1]| | |] eqn:Efl; try discriminate.
+      intros E. injection E as <- <-. split; [exact Ed|]. split; [rewrite Hia; discriminate|]. split; [reflexivity|]. split; [eauto|].
+      intros q Hq. destruct (Hcur q Hq) as [slots ->]. cbn [slots_of unk_of] in *.
+      rewrite Hr in Hq. cbn [cur_ok] in Hq. rewrite Hg, Ha, Ew in Hq. destruct Hq as (_ & L & Hsl & Hone).
+      replace (11 - d)%nat with (12 - S d)%nat in * by lia.
+      pose proof (fields_loop_sound (set_fields vr o sch ann fu) d md ma q (fun oi => oneof_state (m_fields md) slots 0 oi)
+                    (IH (S d)) (IH (S (S d))) Ed (eq_sym Hlen) (facts_of mid md ma Hg Ha)
+                    (m_fields md) (a_fields ma) [] [] slots tp slots' t1 eq_refl eq_refl eq_refl Efl) as Hfin.
+      destruct Hfin as (L' & Hsl' & Hone').
+      { split; [exact L|]. split.
+        - intros i f fa s Hf Hfa Hs. split; [cbn [length]; lia|intros _; eapply Hsl; eauto].
+        - intros oi Hoi. split; [apply (Hone oi Hoi)|left; reflexivity]. }
+      rewrite Hr. cbn [sdeep]. rewrite Hg, Ha, Ew. replace (11 - d)%nat with (12 - S d)%nat by lia. split.
+      + unfold rg_msg. rewrite Ew. cbn [is_nilb andb]. unfold oneofs_ok. apply forallb_forall. intros oi Hoi.
+        apply in_seq in Hoi. destruct (Hone' oi ltac:(lia)) as [C R]. apply andb_true_iff. split; [apply Nat.leb_le; exact C|].
+        apply in_existsb_opt. eapply reach_closed; [|exact R]. apply (Hone oi). lia.
+      + apply sslots_intro; [lia|exact L'|]. intros i f fa s Hf Hfa Hs. apply (Hsl' i f fa s Hf Hfa Hs).
+        apply nth_error_Some. congruence.
+    - (* Timestamp *)
+      pose proof (draw_z_range (-9999999999) 9999999999 tp ltac:(lia)) as H1. destruct (draw_z (-9999999999) 9999999999 tp) as [s t1].
+      pose proof (draw_z_range 0 999999999 t1 ltac:(lia)) as H2. destruct (draw_z 0 999999999 t1) as [n t2]. cbn [fst] in *.
+      intros E. injection E as <- <-. split; [exact Ed|]. split; [rewrite Hia; discriminate|]. split; [reflexivity|]. split; [eauto|].
+      intros q Hq. destruct (Hcur q Hq) as [slots ->]. cbn [unk_of]. rewrite Hr. cbn [sdeep]. rewrite Hg, Ha, Ew.
+      unfold rg_msg. rewrite Ew. cbn [is_nilb andb]. repeat (apply andb_true_iff; split); try apply Z.leb_le; lia.
+    - (* Duration *)
+      pose proof (draw_z_range 0 9223372035 tp ltac:(lia)) as H1. destruct (draw_z 0 9223372035 tp) as [s t1].
+      pose proof (draw_z_range 0 999999999 t1 ltac:(lia)) as H2. destruct (draw_z 0 999999999 t1) as [n t2]. cbn [fst] in *.
+      intros E. injection E as <- <-. split; [exact Ed|]. split; [rewrite Hia; discriminate|]. split; [reflexivity|]. split; [eauto|].
+      intros q Hq. destruct (Hcur q Hq) as [slots ->]. cbn [unk_of]. rewrite Hr. cbn [sdeep]. rewrite Hg, Ha, Ew.
+      unfold rg_msg. rewrite Ew. cbn [is_nilb andb]. repeat (apply andb_true_iff; split); try apply Z.leb_le; lia.
+    - (* Any *)
+      destruct (gen_any vr o sch ann (set_fields vr o sch ann fu) d ic tp) as [[[A|] t1]| | |] eqn:Ega; try discriminate.
+      + pose proof (gen_any_sound _ _ _ _ _ _ (IH (S d)) ltac:(lia) Ega) as (Hu & slots & -> & Hsa).
+        intros E. injection E as <- <-. split; [exact Ed|]. split; [intros _; exact Hu|]. split; [reflexivity|]. split; [eauto|].
+        intros q _. rewrite Hr. cbn [sdeep]. rewrite Hg, Ha, Ew. exact Hsa.
+      + pose proof (gen_any_sound _ _ _ _ _ _ (IH (S d)) ltac:(lia) Ega) as Hu. cbn beta iota in Hu.
+        cbn [v_any_container repaired]. intros E. injection E as <- <-. right. split; [rewrite Hia; reflexivity|exact Hu].
+    - (* FieldMask *)
+      pose proof (draw_n_range 1 5 tp ltac:(lia)) as Hn. destruct (draw_n 1 5 tp) as [n t1]. cbn [fst] in Hn.
+      pose proof (draw_many_forall (fun b => fm_path_ok b = true) draw_path draw_path_ok (N.to_nat n) t1) as Hp.
+      pose proof (draw_many_length draw_path (N.to_nat n) t1) as Hl.
+      destruct (draw_many draw_path (N.to_nat n) t1) as [paths t2]. cbn [fst] in *. cbn [v_fieldmask_stored repaired].
+      intros E. injection E as <- <-. split; [exact Ed|]. split; [rewrite Hia; discriminate|]. split; [reflexivity|]. split; [eauto|].
+      intros q Hq. destruct (Hcur q Hq) as [slots ->]. cbn [unk_of]. rewrite Hr. cbn [sdeep]. rewrite Hg, Ha, Ew.
+      unfold rg_msg. rewrite Ew. cbn [is_nilb andb rep_len v_fieldmask_stored repaired]. rewrite map_length, Hl.
+      repeat (apply andb_true_iff; split); try (apply N.leb_le; lia).
+      apply forallb_forall. intros x Hx. apply in_map_iff in Hx. destruct Hx as (b & <- & Hb).
+      rewrite Forall_forall in Hp. apply Hp. exact Hb.
+  Qed.
 End Sound.
